@@ -30,6 +30,11 @@ type C08Reg struct {
 type C08Pub struct {
 	ID      int `json:"id"`
 	CtxKind int `json:"ctx"` // 0 Publish (no context), 1 live cancellable, 2 already cancelled, 3 deadline that expires in a handler sleep
+	// Cause (kinds 1, 2): the context is cancelled with a cause of the caller's own (context.WithCancelCause): Err() is
+	// Canceled as for any cancellation, only context.Cause differs. Past (kind 2): the context is dead because its
+	// deadline passed before the call instead (Err() is DeadlineExceeded).
+	Cause bool `json:"cause,omitempty"`
+	Past  bool `json:"past,omitempty"`
 }
 
 type C08Scenario struct {
@@ -62,6 +67,36 @@ type C08Scenario struct {
 
 type c08Key struct{}
 
+var errC08Cause = errors.New("caller's own cancellation cause")
+
+// c08StringKeys: values an application keeps in its context under plain string keys (frowned upon, common all the
+// same) - among them names that instrumentation layers like to use for their own bookkeeping
+var c08StringKeys = []string{"event.type", "async", "position", "request-id"}
+
+func c08Values(id int) context.Context {
+	ctx := context.WithValue(context.Background(), c08Key{}, id)
+	for i, k := range c08StringKeys {
+		ctx = context.WithValue(ctx, k, id*10+i) //nolint:staticcheck // string keys on purpose
+	}
+	return ctx
+}
+
+// c08SameValues: every value of the publish context is visible, unchanged, in the derived context
+func c08SameValues(root, ctx context.Context) bool {
+	if root.Value(c08Key{}) == nil {
+		return true
+	}
+	if ctx.Value(c08Key{}) != root.Value(c08Key{}) {
+		return false
+	}
+	for _, k := range c08StringKeys {
+		if ctx.Value(k) != root.Value(k) {
+			return false
+		}
+	}
+	return true
+}
+
 func genC08(rt *rapid.T) core.Scenario {
 	sc := &C08Scenario{Type: rapid.IntRange(0, len(allTypes)-1).Draw(rt, "type")}
 	n := rapid.IntRange(0, 6).Draw(rt, "nRegs")
@@ -83,6 +118,14 @@ func genC08(rt *rapid.T) core.Scenario {
 	for i := 0; i < np; i++ {
 		sc.Pubs = append(sc.Pubs, C08Pub{ID: (i+1)*2 + rapid.IntRange(0, 1).Draw(rt, "parity"),
 			CtxKind: rapid.SampledFrom([]int{0, 1, 1, 1, 2, 2, 3}).Draw(rt, "ctx")})
+		if p := &sc.Pubs[len(sc.Pubs)-1]; p.CtxKind == 1 || p.CtxKind == 2 {
+			switch rapid.IntRange(0, 3).Draw(rt, "ctxFlavour") {
+			case 2:
+				p.Cause = true
+			case 3:
+				p.Past = p.CtxKind == 2
+			}
+		}
 	}
 	sc.Hooks = rapid.IntRange(0, 15).Draw(rt, "hooks")
 	sc.Obs = rapid.IntRange(0, 4).Draw(rt, "obs") == 4
@@ -147,8 +190,8 @@ func (sc *C08Scenario) Execute(t *testing.T) *core.Outcome {
 		id, ok := ops.IDOf(ev)
 		h := c08Hook{Kind: kind, Ev: id, EvOK: ok, TypeOK: et == ops.RT, ValueOK: true}
 		if ctx != nil {
-			if root := rootCtx[id]; root != nil && root.Value(c08Key{}) != nil {
-				h.ValueOK = ctx.Value(c08Key{}) == root.Value(c08Key{})
+			if root := rootCtx[id]; root != nil {
+				h.ValueOK = c08SameValues(root, ctx)
 			}
 		}
 		h.Stamp = w.Rec.Add(fmt.Sprintf("hook%d", kind), id, 0, "")
@@ -233,7 +276,7 @@ func (sc *C08Scenario) Execute(t *testing.T) *core.Outcome {
 				if ctx == nil || root == nil {
 					return
 				}
-				if root.Value(c08Key{}) != nil && ctx.Value(c08Key{}) != root.Value(c08Key{}) {
+				if !c08SameValues(root, ctx) {
 					iv.ValueOK = false
 				}
 				if (ctx.Err() != nil) != (root.Err() != nil) {
@@ -280,14 +323,22 @@ func (sc *C08Scenario) Execute(t *testing.T) *core.Outcome {
 			var ctx context.Context
 			switch p.CtxKind {
 			case 1, 2:
-				c, cancel := context.WithCancel(context.WithValue(context.Background(), c08Key{}, p.ID))
+				base := c08Values(p.ID)
+				c, cancel := context.WithCancel(base)
+				if p.Cause {
+					cc, cancelCause := context.WithCancelCause(base)
+					c, cancel = cc, func() { cancelCause(errC08Cause) }
+				}
+				if p.Past && p.CtxKind == 2 {
+					c, cancel = context.WithDeadline(base, time.Now().Add(-time.Second))
+				}
 				ctx, cancelFn[p.ID] = c, cancel
 				if p.CtxKind == 2 {
 					cancelAt[p.ID] = w.Rec.Add("pre-cancel", p.ID, 0, "")
 					cancel()
 				}
 			case 3:
-				c, cancel := context.WithTimeout(context.WithValue(context.Background(), c08Key{}, p.ID), 5*time.Millisecond)
+				c, cancel := context.WithTimeout(c08Values(p.ID), 5*time.Millisecond)
 				ctx, cancelFn[p.ID] = c, cancel
 				// the deadline may pass while nobody is looking (a delivery queued behind the other publisher's
 				// event): note it from a callback task, so that the publish counts as cancelled from then on
